@@ -140,7 +140,7 @@ def cname(tc):
     called Array in the IR)."""
     cls = tc.__class__.__name__
     if cls == "SpecializedArrayType":
-        return "Array$" + tc.type_parameters[0].bound.name if tc.type_parameters[0].bound is not None else "Array$"
+        return "SArray"
     return tc.name
 
 
